@@ -84,9 +84,9 @@ def children_requests(run):
         picks.append((gen.rand_cell(rng, r), r + d))
     if not run.quick:
         picks += [(0, 9), (rng.choice(base), 11), (rng.choice(base), 12)]
-        r = rng.randint(1, 16)
-        picks.append((gen.rand_cell(rng, r), r + 13))          # 4^13 = 6.7e7 ids (512 MiB): the largest single result explored
-        picks.append((0, 11))                                  # ... and 60 * 4^10 = 6.3e7 ids across all quintant blocks
+        # (results of 6e7 ids - 4^13 children of one cell, the world cell at resolution 11 - were tried and withdrawn: the model
+        #  process handles each of them alone in 80 s but stalls when several follow one another in one stream; the largest single
+        #  result explored is 5 * 4^11 = 2.1e7 ids)
     for c, R in picks:
         out.append((f"digest cell_to_children {c} {R}", expected_digest([c], R)))
     return out
@@ -102,12 +102,12 @@ def uncompact_requests(run):
         cells = [gen.rand_cell(rng, r) for _ in range(k)]
         out.append((f"digest uncompact {compactgen.fmt(cells)} {R}", expected_digest(cells, R)))
     if not run.quick:
-        # one cell expanded by 13 levels (6.7e7 results, 512 MiB): a quintant and a deeper cell in a non-canonical spelling
+        # one cell expanded by 12 levels (1.7e7 results): a quintant and a deeper cell in a non-canonical spelling
         qn = spec.encode(1, rng.randrange(60), ())
-        out.append((f"digest uncompact {qn} 14", expected_digest([qn], 14)))
+        out.append((f"digest uncompact {qn} 13", expected_digest([qn], 13)))
         r = rng.randint(2, 16)
         c = gen.rand_cell(rng, r)
-        out.append((f"digest uncompact {c | (1 << (2 * rng.randrange(0, (59 - 2 * r) // 2 + 1)))} {r + 13}", expected_digest([c], r + 13)))
+        out.append((f"digest uncompact {c | (1 << (2 * rng.randrange(0, (59 - 2 * r) // 2 + 1)))} {r + 12}", expected_digest([c], r + 12)))
     # mixed resolutions (4 coarse + 7 fine, and cells already at the target in between)
     for _ in range(2 if run.quick else 6):
         R = rng.randint(12, 20)
@@ -298,11 +298,11 @@ def check(run, items, label, profiles=("release",), count_only=False):
     """run the requests through implementation and model, compare the digests with each other and with the expected length / sum / xor"""
     from . import core
     reqs = [q for q, _ in items]
-    impl, model = core.both(run, reqs, label, reorder=False, timeout=3600, mem_bytes=32 << 30)
+    impl, model = core.both(run, reqs, label, reorder=False, timeout=1500, mem_bytes=32 << 30)
     for prof in profiles:
         if prof == "release":
             continue
-        other = core.run_stream(core.harness(run, prof), reqs, timeout=3600, isolate=True, mem_bytes=32 << 30)
+        other = core.run_stream(core.harness(run, prof), reqs, timeout=1500, isolate=True, mem_bytes=32 << 30)
         run.correspond(reqs, other, model, None, label + f" [{prof} build]")
     for (q, exp), a in zip(items, impl):
         run.evaluations += 1
